@@ -627,6 +627,12 @@ func vsNewPC(t *testing.T, cfg string) *PeerConnection {
 		}, RTPCodecTypeAudio); err != nil {
 			t.Fatal(err)
 		}
+	case "audioonly":
+		if err := me.RegisterCodec(RTPCodecParameters{
+			RTPCodecCapability: RTPCodecCapability{MimeType: MimeTypeOpus, ClockRate: 48000, Channels: 2}, PayloadType: 111,
+		}, RTPCodecTypeAudio); err != nil {
+			t.Fatal(err)
+		}
 	case "manyext": // more header extensions than one-byte ids (C10)
 		if err := me.RegisterDefaultCodecs(); err != nil {
 			t.Fatal(err)
@@ -700,8 +706,12 @@ func vsRunBehaviour(t *testing.T, bh vsBehaviour) []vkM {
 	if cfg == "" {
 		cfg = "default"
 	}
-	a := &vsPeer{name: "A", pc: vsNewPC(t, cfg), trIDs: map[*RTPTransceiver]int{}, applied: map[string]bool{}}
-	b := &vsPeer{name: "B", pc: vsNewPC(t, cfg), trIDs: map[*RTPTransceiver]int{}, applied: map[string]bool{}}
+	cfgA, cfgB := cfg, cfg
+	if cfg == "novideoB" { // B has no video codec: it rejects video sections for lack of codecs
+		cfgA, cfgB = "default", "audioonly"
+	}
+	a := &vsPeer{name: "A", pc: vsNewPC(t, cfgA), trIDs: map[*RTPTransceiver]int{}, applied: map[string]bool{}}
+	b := &vsPeer{name: "B", pc: vsNewPC(t, cfgB), trIDs: map[*RTPTransceiver]int{}, applied: map[string]bool{}}
 	defer func() {
 		_ = a.pc.Close()
 		_ = b.pc.Close()
